@@ -90,6 +90,8 @@ def run(chk):
            f"value alternatives {[v.show(m_)[:200] for m_ in mem]}; one must be (array/2 with cumsum[:-1] added at [1:] along a) * cell[a]",
            v.f, r)
     d4_mean(chk, repo)
+    cm.no_dtype_narrowing(chk, repo, "C06", "C06.D2", ["field.Field.integrate", "field.Field.mean"],
+                          "sums times (float) cell lengths and means are not integers - an integer-typed field would be truncated")
     d5_linear(chk, repo, v, mem, t)
     d7_module_function(chk, repo)
     chk.trust("np.sum / np.cumsum / ndarray.mean reduce along the given axes only; mean == sum / n[a]; edges[a] == n[a]*cell[a] "
